@@ -19,7 +19,7 @@ ASSUMPTIONS = [
     "Transfer-Encoding without final chunked when the connection is never reused afterwards",
     "the worker stops using a connection after any exception from the parser or the body",
 ]
-BUDGET = {"quick": (16, 400), "thorough": (16, 20000)}
+BUDGET = {"quick": (16, 1200), "thorough": (16, 20000)}
 
 CFGS = [
     {},
